@@ -120,10 +120,18 @@ ConfBlock(nd) == nd.a = "BeginBlock" =>
        g.kind = "reg" =>
          /\ IF EpochTriggers(p, now, g.dur) THEN GaugeEpochRel(p.pools, g, now, PaidOf(g, g2), g2) ELSE SameGauge(g, g2)
          /\ ProRataChecked(p, nd, k) =>
-              LET tot == TotalElig(p.pools, g, p.users)  alloc == AllocNow(g) IN
-              /\ \A u \in 1..Len(p.users) : PayNear(Inflow(p, nd, u, g.denom), alloc, Elig(p.pools, g, p.users[u]), tot)
-              /\ LEq(TotalInflow(p, nd, g.denom), PaidOf(g, g2))
-              /\ LEq(LAdd(nd.st.cust[g.denom], PaidOf(g, g2)), p.cust[g.denom])
+              LET tot == TotalElig(p.pools, g, p.users)  alloc == AllocNow(g)
+                  funded == LLe(alloc, p.cust[g.denom])     \* custody can cover the whole allocation: every send succeeds
+                  near(u) == PayNear(Inflow(p, nd, u, g.denom), alloc, Elig(p.pools, g, p.users[u]), tot)
+              IN
+              IF funded
+              THEN /\ \A u \in 1..Len(p.users) : near(u)
+                   /\ LEq(TotalInflow(p, nd, g.denom), PaidOf(g, g2))
+                   /\ LEq(LAdd(nd.st.cust[g.denom], PaidOf(g, g2)), p.cust[g.denom])
+              ELSE \* doDistributionSends ignores a failed send (insufficient custody) but the gauge books the computed total
+                   /\ \A u \in 1..Len(p.users) : near(u) \/ Inflow(p, nd, u, g.denom) = <<>>
+                   /\ LLe(TotalInflow(p, nd, g.denom), PaidOf(g, g2))
+                   /\ LEq(LAdd(nd.st.cust[g.denom], TotalInflow(p, nd, g.denom)), p.cust[g.denom])
 
 FrameActs == {"Farm", "Activate", "EndBlock", "Price", "Donate", "SwapFee", "Locker"}
 ConfFrame(nd) == nd.a \in FrameActs /\ HasPre(nd) =>
